@@ -323,3 +323,78 @@ amdf_outer.getattr_hook = _amdf_getattr
 amdf_outer.globs = dict(amdf_outer.globs, tostream=None)
 amdf_outer.assumptions = amdf_outer.assumptions + ["LinearFilter.linearize() leaves a filter with integer delays unchanged (its loop over terms is not under contract)",
                                                    "UPOW(k) = u**k is a specification function"]
+
+# ---------------------------------------------------------------------------
+# envelope.rms / abs / squared: which sample-wise map goes into which low-pass, over uninterpreted signal operators
+_SIGNAL = z3.DeclareSort("Signal")
+_LP = z3.Function("LOWPASS_OF", REAL, _SIGNAL, _SIGNAL)       # lowpass(cutoff)(signal)  (the design: C13; the run: C04)
+_SABS = z3.Function("SIG_ABS", _SIGNAL, _SIGNAL)              # abs(signal), sample-wise (C01)
+_SSQ = z3.Function("SIG_SQUARE", _SIGNAL, _SIGNAL)            # signal ** 2, sample-wise (C01)
+_SSQRT = z3.Function("SIG_SQRT", _SIGNAL, _SIGNAL)            # signal ** .5, sample-wise (C01)
+
+
+class _LowpassOf:
+    def __init__(self, cutoff):
+        self.cutoff = cutoff
+
+
+def _is_signal(v):
+    return _sym.is_z3(v) and v.sort() == _SIGNAL
+
+
+def _env_lowpass(m, args, kwargs):
+    if len(args) != 1 or kwargs:
+        raise _sym.Unsupported("lowpass called with something else than one cut-off")
+    return _LowpassOf(_sym.to_real(args[0]))
+
+
+def _env_thub(m, args, kwargs):
+    # thub(sig, 1): one reader of the signal (contract 'thub', C03)
+    if len(args) == 2 and not kwargs and _is_signal(args[0]) and args[1] == 1:
+        return args[0]
+    raise _sym.Unsupported("thub with another number of copies")
+
+
+def _env_abs(m, args, kwargs):
+    if len(args) == 1 and not kwargs and _is_signal(args[0]):
+        return _SABS(args[0])
+    raise _sym.Unsupported("abs of something else than the signal")
+
+
+for _f in (_env_lowpass, _env_thub, _env_abs):
+    _f._pyvc_callee = True
+
+
+def _env_call(m, f, args, kwargs):
+    if isinstance(f, _LowpassOf) and len(args) == 1 and not kwargs and _is_signal(args[0]):
+        return _LP(f.cutoff, args[0])
+    return NotImplemented
+
+
+def _env_binop(m, op, a, b):
+    if isinstance(op, _ast.Pow) and _is_signal(a):
+        if isinstance(b, int) and b == 2:
+            return _SSQ(a)
+        if isinstance(b, float) and b == .5:
+            return _SSQRT(a)
+    return NotImplemented
+
+
+def _envelope(k, nm, formula, text):
+    c = Contract(name="envelope." + nm, qual="audiolazy/lazy_analysis.py::envelope#%d" % k, kind="function", props=["C20"],
+                 modes={"any-cutoff": Mode(params=dict(sig=lambda m, n: z3.Const("sig_in", _SIGNAL), cutoff=Real))},
+                 ensures=[("S:" + text, "result == " + formula)],
+                 globs={"lowpass": _env_lowpass, "thub": _env_thub, "abs": _env_abs},
+                 spec_env={"LOWPASS_OF": UFn(_LP, 2), "SIG_ABS": UFn(_SABS, 1), "SIG_SQUARE": UFn(_SSQ, 1), "SIG_SQRT": UFn(_SSQRT, 1)},
+                 replay="oracles.bounded_adapter:c20", default_elem=Real,
+                 stated=["envelope.%s is %s with the module's lowpass(cutoff) (which map feeds which low-pass; the operators are uninterpreted)" % (nm, text)])
+    c.call_hook = _env_call
+    c.binop_hook = _env_binop
+    c.assumptions = ["signals are values of an uninterpreted sort; LOWPASS_OF(cutoff, s) stands for lowpass(cutoff)(s) (design: C13 contracts, run: C04), "
+                     "SIG_ABS / SIG_SQUARE / SIG_SQRT for the sample-wise abs(s), s ** 2, s ** .5 (operator templates: C01); thub(s, 1) is one reader of s (C03)"]
+    return c
+
+
+envelope_rms = _envelope(1, "rms", "SIG_SQRT(LOWPASS_OF(cutoff, SIG_SQUARE(sig)))", "the-square-root-of-the-low-pass-of-x^2")
+envelope_abs = _envelope(2, "abs", "LOWPASS_OF(cutoff, SIG_ABS(sig))", "the-low-pass-of-|x|")
+envelope_squared = _envelope(3, "squared", "LOWPASS_OF(cutoff, SIG_SQUARE(sig))", "the-low-pass-of-x^2")
